@@ -221,27 +221,35 @@ def split_config(h, mesh, style, pt=None, sub=None, bnd=None):
                 h.concrete('boundary "%s" designates the same edges' % name, got == want, 'got %s want %s' % (got, want))
 
 
-def extrude_config(h):
-    """MeshTri1 * MeshLine1: prism volume = triangle area x segment length (root-free: squared)."""
+def extrude_config(h, order=(0, 1)):
+    """MeshTri1 * MeshLine1: one prism per (triangle, segment) between consecutive levels in INCREASING order, whatever the storage
+    order of the line nodes (`order` lists the node indices from the lowest to the highest level)."""
     import skfem as S
     with warnings.catch_warnings():
         warnings.simplefilter('ignore')
         mt = make_mesh(h, 'tri1', var='p')
-        z = h.sym('z', (1, 2), nominal=np.array([[0.25, 1.5]]))
-        ml = S.MeshLine1(z, np.array([[0], [1]]))
+        n = len(order)
+        nominal = np.zeros((1, n))
+        for rank, node in enumerate(order):
+            nominal[0, node] = 0.25 + 1.25 * rank
+        z = h.sym('z', (1, n), nominal=nominal)
+        ml = S.MeshLine1(z, np.array([[order[i] for i in range(n - 1)], [order[i + 1] for i in range(n - 1)]]))
         if h.sym_mode:
-            h.assume(z[0, 0] < z[0, 1])
+            for i in range(n - 1):
+                h.assume(z[0, order[i]] < z[0, order[i + 1]])
+        h.sample(dict(triangle='tri1', line_nodes_low_to_high=list(order)))
         W = mt * ml
-        h.concrete('one prism per (triangle, segment)', np.asarray(W.t).shape == (6, 1))
+        h.concrete('one prism per (triangle, segment)', np.asarray(W.t).shape == (6, n - 1))
         Pw, tw = W.doflocs, np.asarray(W.t)
         P = mt.doflocs
-        # bottom and top faces are the triangle at the two z levels
-        for a in range(3):
-            for d in range(2):
-                h.zero('bottom vertex %d [%d]' % (a, d), Pw[d, tw[a, 0]] - P[d, np.asarray(mt.t)[a, 0]])
-                h.zero('top vertex %d [%d]' % (a, d), Pw[d, tw[a + 3, 0]] - P[d, np.asarray(mt.t)[a, 0]])
-            h.zero('bottom vertex %d z' % a, Pw[2, tw[a, 0]] - z[0, 0])
-            h.zero('top vertex %d z' % a, Pw[2, tw[a + 3, 0]] - z[0, 1])
+        # bottom and top faces of prism i are the triangle at levels i and i + 1
+        for i in range(min(n - 1, tw.shape[1])):
+            for a in range(3):
+                for d in range(2):
+                    h.zero('prism %d bottom vertex %d [%d]' % (i, a, d), Pw[d, tw[a, i]] - P[d, np.asarray(mt.t)[a, 0]])
+                    h.zero('prism %d top vertex %d [%d]' % (i, a, d), Pw[d, tw[a + 3, i]] - P[d, np.asarray(mt.t)[a, 0]])
+                h.zero('prism %d bottom vertex %d z == level %d' % (i, a, i), Pw[2, tw[a, i]] - z[0, order[i]])
+                h.zero('prism %d top vertex %d z == level %d' % (i, a, i + 1), Pw[2, tw[a + 3, i]] - z[0, order[i + 1]])
 
 
 def to_meshtet_config(h, kind, ncells):
@@ -395,7 +403,10 @@ def build_configs(tier, seed):
         for (r0, r1) in ([(0, 0), (1, 2), (3, 1)] if quick else [(a, b) for a in range(4) for b in range(4)]):
             add('to_meshtri/style=%s/shift=%d%d' % (style, r0, r1), split_config, mesh='quad2', style=style, pt=shifted('quad2', (r0, r1)),
                 sub={'s0': [0], 's1': [1]}, bnd={'b%d' % f: [f] for f in range(7)})
-    add('extrude/tri1xline', extrude_config)
+        add('to_meshtri/style=%s/quad3row' % style, split_config, mesh='quad3row', style=style,
+            sub={'s0': [0], 's2': [2]}, bnd={'b%d' % f: [f] for f in range(10)})
+    for order in [(0, 1), (1, 0), (0, 2, 1), (2, 0, 1)] + ([] if quick else [(1, 2, 0), (2, 1, 0), (0, 1, 2), (1, 0, 2)]):
+        add('extrude/tri1xline/levels=%s' % ''.join(map(str, order)), extrude_config, order=order)
     for kind in ('hex', 'wedge'):
         for n in (1, 2):
             add('to_meshtet/%s/cells=%d' % (kind, n), to_meshtet_config, kind=kind, ncells=n, timeout=900 if quick else 3000)
